@@ -668,9 +668,26 @@ pub fn minimise(scn: &Scenario, found: &Found) -> Found {
 	let mut scn2 = scn.clone();
 	scn2.init = vec![];
 	let mut hist = found.history.clone();
+	crate::par::LIMIT_OVERRIDE.store(60, std::sync::atomic::Ordering::SeqCst);
+	// every attempt runs in a forked child under the per-item watchdog: a shrunk history may make a broken
+	// library loop or abort, which must not take the checker down (such an attempt counts as "not failing")
 	let fails = |h: &[Ev]| -> Option<Fail> {
-		match run_history(&scn2, &dir, h) {
-			Err((_, f)) if f.kind == found.fail.kind => Some(f),
+		let items = crate::par::par_map(1, 1, "min", |_| {
+			let r = match run_history(&scn2, &dir, h) {
+				Err((_, f)) if f.kind == found.fail.kind => json!({"kind": f.kind, "msg": f.msg}),
+				_ => json!(null),
+			};
+			(serde_json::to_vec(&r).unwrap(), false)
+		});
+		match items.into_iter().next() {
+			Some(crate::par::Item::Done(b)) => {
+				let j: serde_json::Value = serde_json::from_slice(&b).ok()?;
+				if j.is_null() {
+					None
+				} else {
+					Some(Fail::new(j["kind"].as_str()?, j["msg"].as_str()?.to_string()))
+				}
+			},
 			_ => None,
 		}
 	};
@@ -678,6 +695,7 @@ pub fn minimise(scn: &Scenario, found: &Found) -> Found {
 		Some(f) => f,
 		None => {
 			let _ = std::fs::remove_dir_all(&dir);
+			crate::par::LIMIT_OVERRIDE.store(0, std::sync::atomic::Ordering::SeqCst);
 			return Found { scenario: found.scenario.clone(), cfg: found.cfg.clone(), history: hist, fail: found.fail.clone() }
 		},
 	};
@@ -719,6 +737,7 @@ pub fn minimise(scn: &Scenario, found: &Found) -> Found {
 		}
 	}
 	let _ = std::fs::remove_dir_all(&dir);
+	crate::par::LIMIT_OVERRIDE.store(0, std::sync::atomic::Ordering::SeqCst);
 	Found { scenario: found.scenario.clone(), cfg: found.cfg.clone(), history: hist, fail }
 }
 
